@@ -221,6 +221,14 @@ def run(tier, seed):
             de = (float(hm.update(Xp).hamiltonian()[0]) - float(hm.update(Xm).hamiltonian()[0])) / (2 * h)
             if abs(de + el._force[0][d]) > 1e-7 * (1 + abs(de)):
                 bad.append(dict(failed="the harmonic model's force is minus the gradient of its energy", case=dict(ndim=nd))); break
+        # continued from a previous point a tiny distance away (a slow or turning trajectory): energy and force are those of the new position
+        for step_ in (1e-3, 1e-6, 1e-9, 1e-12):
+            X2 = X + step_ * np.array([rng.choice([-1.0, 1.0]) for _ in range(nd)])
+            e2 = hm.update(X2, electronics=el); fresh = hm.update(X2)
+            hc.append(tup(fls(x0), fl(E0), flss(H0), fls(X2), fl(float(e2.hamiltonian()[0])), fls(e2._force[0]))); hmeta.append(dict(model="harmonic", ndim=nd, continued_from_distance=step_))
+            res.count("model/harmonic-continued")
+            if float(e2.hamiltonian()[0]) != float(fresh.hamiltonian()[0]) or not np.array_equal(e2._force, fresh._force):
+                bad.append(dict(failed="the harmonic model's energy and force at a position depend only on that position (continued from a point %.0e away: energy %r vs %r computed afresh)" % (step_, float(e2.hamiltonian()[0]), float(fresh.hamiltonian()[0])), case=dict(ndim=nd))); break
         for ext in ("json", "yaml"):
             fn = os.path.join(tmproot, "h%d.%s" % (it, ext)); hm.to_file(fn); h2 = HarmonicModel.from_file(fn)
             if not (np.array_equal(h2.x0, hm.x0) and h2.E0 == hm.E0 and np.array_equal(h2.H0, hm.H0) and np.array_equal(h2.mass, hm.mass)):
